@@ -120,3 +120,8 @@ CORPUS += [
         "                    acceptance_prob = min(torch.zeros_like(log_alpha), log_alpha).exp()\n                    accepted = (acceptance_prob > torch.rand(1)).item()\n                    if acceptance_prob >= 1.0:\n                        accepted = True\n",
         mode='text', benign=True),
 ]
+CORPUS += [
+    Mut('c15-proposed-density-brought-along-by-the-operator', 'torchtree/inference/mcmc/mcmc.py', '', "                with torch.no_grad():\n                    log_joint_proposed = self.joint()\n",
+        "                log_joint_proposed = getattr(operator, 'proposed_log_density', None)\n                if log_joint_proposed is None:\n                    with torch.no_grad():\n                        log_joint_proposed = self.joint()\n",
+        mode='text', expect=[('C15.L', 'MCMC.run::proposal-density-is-the-targets-own')]),
+]
